@@ -32,7 +32,7 @@ func init() {
 			}
 		}
 	}
-	req = append(req, "bitmap/empty", "bitmap/all-zero", "bitmap/all-one", "index/trailing", "index/no-trailing")
+	req = append(req, "bitmap/empty", "bitmap/all-zero", "bitmap/all-one", "index/trailing", "index/no-trailing", "ones>=32768", "ones>=65536")
 	register(&mon.Prop{
 		ID:    "C01",
 		Level: "exploration",
@@ -48,6 +48,7 @@ func init() {
 				{Name: "byte-lanes", N: 8 * 3, Run: c01Lanes},
 				{Name: "zoo", N: c.Pick(60000, 6000000), Run: c01Zoo},
 				{Name: "zoo-long", N: c.Pick(1000, 200000), Run: c01ZooLong},
+				{Name: "dense-long", N: c.Pick(8, 400), Run: c01DenseLong},
 			}
 		},
 	})
@@ -229,5 +230,43 @@ func c01ZooLong(w *mon.W, idx int) {
 	words := gen.ZooBitmap(r, n)
 	if c01Check(w, words) {
 		w.Sample(func() interface{} { return mon.D{"nwords": len(words), "first_words": truncW(words, 3)} })
+	}
+}
+
+// c01DenseLong: all-one and dense bitmaps of 520..2100 words (quick) / up to 40000 words (thorough),
+// so that prefix counts pass 2^15 and 2^16.
+func c01DenseLong(w *mon.W, idx int) {
+	r := w.Rng
+	n := []int{520, 1030, 1100, 2100}[idx%4]
+	if w.Cfg.Thorough() && idx%16 == 15 {
+		n = 10000 + r.Intn(30000)
+	}
+	words := make([]uint64, n)
+	for i := range words {
+		switch (idx / 4) % 2 {
+		case 0:
+			words[i] = ^uint64(0)
+		default:
+			words[i] = r.Uint64() | r.Uint64() | r.Uint64()
+		}
+	}
+	if idx%8 >= 4 {
+		words[r.Intn(n)] = 0
+	}
+	w.Tick()
+	if c01Check(w, words) {
+		ones := 0
+		for _, x := range words {
+			for ; x != 0; x &= x - 1 {
+				ones++
+			}
+		}
+		if ones >= 32768 {
+			w.Bucket("ones>=32768")
+		}
+		if ones >= 65536 {
+			w.Bucket("ones>=65536")
+		}
+		w.Sample(func() interface{} { return mon.D{"nwords": n, "ones": ones, "what": "dense long bitmap"} })
 	}
 }
